@@ -418,6 +418,11 @@ class Region:
         self.accesses = []       # dicts
         self.events = {}         # private name -> list of (kind, conditional, toplevel)
         self.notes = []
+        self.if_clause = None    # text of an `if (...)` clause of the parallel directive
+        self.clauses = []        # [(name, argument)] of the parallel directive and of its `omp for`s
+        self.loops = []          # [{"iv", "lo", "hi", "cmp"}] of the work-shared loops
+        self.func = ""
+        self.file = ""
 
 
 def is_intlit(t):
@@ -691,6 +696,55 @@ class Analyzer:
             self.event(name, ev, line)
         return end
 
+    def untracked(self, toks, p):
+        """toks[p] is an identifier that is neither a local, a private nor a captured variable of the enclosing
+        function: a global, a static, a data member (also written `this->x`), a function, a type, a namespace.
+        Mutations of such a name and calls of functions without a summary are recorded as opaque accesses
+        (nothing outside the enclosing function is tracked, so nothing can bound them)."""
+        t = toks[p]
+        n = len(toks)
+        prev = toks[p - 1].s if p > 0 else ""
+        nxt = toks[p + 1].s if p + 1 < n else ""
+        if t.s in KEYWORDS or t.s in self.locals or t.s == self.iv or any(t.s == l[0] for l in self.loops):
+            return
+        member = prev == "->" and p >= 2 and toks[p - 2].s == "this"
+        if prev in (".", "->") and not member:
+            return
+        if nxt == "::":
+            return
+        if nxt == "(":
+            # a free (possibly qualified) function call
+            if prev == "::" or not (p == 0 or prev not in (".", "->")):
+                pass
+            if (t.s in PURE_FUNCTIONS or t.s in MUTATES_ARGS or t.s in ITER_MUTATORS or t.s == "copy"
+                    or t.s[0].isupper() or t.s in TYPE_KEYWORDS or t.s.endswith("_t")
+                    or t.s in ("numeric_limits", "pair", "vector", "fill")):
+                return
+            # `T x(args)` declares x: the previous token is then a type name / `>` / `&` / `*`
+            if p > 0 and (toks[p - 1].k == "id" and toks[p - 1].s not in KEYWORDS or prev in (">", "&", "*")) \
+                    and prev not in ("return",):
+                return
+            self.access("<call>", True, "AOpaque", line=t.line,
+                        what="call of %s(...): no summary of what it touches" % t.s)
+            return
+        if prev == "::" and not member:
+            # qualified name used as a value: a namespace-level / static variable
+            pass
+        ch, end = self.chain(toks, p)
+        members = [el[1] for el in ch if el[0] == "member"]
+        after = toks[end].s if end < n else ""
+        wr = None
+        if prev in ("++", "--") or after in ("++", "--"):
+            wr = "incremented"
+        elif after in ASSIGN_OPS and (member or prev in ("", ";", "{", "}", "(", ")", ",", "*") or p == 0):
+            wr = "assigned"
+        elif any(m in MUTATING_METHODS for m in members):
+            wr = "mutated through ." + next(m for m in members if m in MUTATING_METHODS)
+        if wr:
+            self.access(t.s, True, "AOpaque", line=t.line,
+                        what="%s%s is not declared in the enclosing function (global, static or data member) and is %s "
+                             "in the loop body" % ("this->" if member else "", t.s, wr))
+
     def scan(self, toks, target=None):
         """all tracked occurrences in an expression; target = (position, op) of the assignment target"""
         p = 0
@@ -703,6 +757,8 @@ class Analyzer:
                 # the chain's inner expressions are scanned by occurrence(); skip over the chain
                 p = self.occurrence(toks, p, top)
             else:
+                if t.k == "id" and self.iv is not None and not self.tracked(t.s):
+                    self.untracked(toks, p)
                 p += 1
 
     # ---- statements
@@ -790,7 +846,7 @@ class Analyzer:
                     self.event(lhs[base].s, "M", line)
                 self.scan(lhs)
         else:
-            self.scan(lhs)
+            self.scan(lhs + [toks[a]])
 
     def for_header(self, hdr):
         """(var, lo, hi, cmp, declared) of a canonical for header, or (None, ...)"""
@@ -905,6 +961,68 @@ def classify_private(events):
     if last[0] == "CLR" and not last[1] and last[2]:
         return "PRestored"
     return "PStale"
+
+
+
+# ----------------------------------------------------------------------------- directive clauses
+SAFE_CLAUSES = {"private", "shared", "default", "schedule", "num_threads", "if", "nowait", "proc_bind"}
+
+
+def parse_clauses(text, skip):
+    """clauses of a directive: list of (name, argument text or None); `skip` = number of leading words that
+    name the directive itself (`omp parallel for` -> 3)"""
+    words = text.split()
+    rest = text
+    for w in words[:skip]:
+        rest = rest[rest.index(w) + len(w):]
+    out = []
+    i, n = 0, len(rest)
+    while i < n:
+        m = re.compile(r"\s*,?\s*([A-Za-z_]\w*)").match(rest, i)
+        if not m:
+            break
+        name = m.group(1)
+        i = m.end()
+        j = i
+        while j < n and rest[j].isspace():
+            j += 1
+        arg = None
+        if j < n and rest[j] == "(":
+            depth = 0
+            k = j
+            while k < n:
+                if rest[k] == "(":
+                    depth += 1
+                elif rest[k] == ")":
+                    depth -= 1
+                    if depth == 0:
+                        break
+                k += 1
+            arg = rest[j + 1:k].strip()
+            i = k + 1
+        out.append((name, arg))
+    return out
+
+
+def cond_atoms(text):
+    """the identifiers, comparison operators and integer literals of a clause expression, sorted: the form in
+    which the `if` clause is compared with clang's reading"""
+    if text is None:
+        return []
+    return sorted(re.findall(r"[A-Za-z_]\w*|\d+|<=|>=|==|!=|&&|\|\||[<>!]", text))
+
+
+def cond_thresholds(text):
+    """[(variable, operator, integer)] for every comparison VAR op LITERAL / LITERAL op VAR of the expression"""
+    out = []
+    if not text:
+        return out
+    flip = {"<": ">", "<=": ">=", ">": "<", ">=": "<=", "==": "==", "!=": "!="}
+    for m in re.finditer(r"([A-Za-z_][\w.>\-]*(?:\(\))?)\s*(<=|>=|==|!=|<|>)\s*(\d+)", text):
+        out.append((m.group(1), m.group(2), int(m.group(3))))
+    for m in re.finditer(r"(\d+)\s*(<=|>=|==|!=|<|>)\s*([A-Za-z_][\w.>\-]*(?:\(\))?)", text):
+        out.append((m.group(3), flip[m.group(2)], int(m.group(1))))
+    return out
 
 
 # ----------------------------------------------------------------------------- HLLE expressions
@@ -1095,11 +1213,23 @@ def analyse_file(path, rel, macros, variant):
             counts[fname] = counts.get(fname, 0) + 1
             name = "%s:%s#%d%s" % (rel, fname, counts[fname], variant)
             reg = Region(name, t.line)
+            reg.func, reg.file = fname, rel
             clause_private = []
-            m = re.search(r"\bprivate\s*\(([^)]*)\)", t.s)
-            if m:
-                clause_private = [x.strip() for x in m.group(1).split(",") if x.strip()]
-            combined = "for" in words[3:]
+            combined = "for" in words[3:4]
+            directive = t.s[len("#pragma "):]
+            par_clauses = parse_clauses(directive, 3 if combined else 2)
+            bad_clauses = []
+
+            def take_clauses(cls, where):
+                for cname, carg in cls:
+                    reg.clauses.append((cname, carg))
+                    if cname == "private" and carg is not None:
+                        clause_private.extend(x.strip() for x in carg.split(",") if x.strip())
+                    elif cname == "if" and where == "parallel":
+                        reg.if_clause = carg
+                    elif cname not in SAFE_CLAUSES:
+                        bad_clauses.append((cname, carg, where))
+            take_clauses(par_clauses, "parallel")
             body, nxt = parse_stmt(toks, p + 1)
             shared = set(params) | set(declared)
             priv = list(clause_private)
@@ -1113,6 +1243,7 @@ def analyse_file(path, rel, macros, variant):
                 for st in body[1]:
                     if st[0] == "ompfor":
                         loops.append(st[2])
+                        take_clauses(parse_clauses(st[1], 2), "for")
                     elif st[0] == "simple":
                         d = decl_names(st[1])
                         if d is not None and not loops:
@@ -1120,8 +1251,16 @@ def analyse_file(path, rel, macros, variant):
                         pre.append(st)
                     else:
                         pre.append(st)
+            priv = list(dict.fromkeys(priv + [x for x in clause_private if x not in priv]))
             shared -= set(priv)
             an = Analyzer(reg, shared, priv)
+            # a clause that changes the iteration space or the sharing of a variable in a way the descriptor
+            # language does not express (reduction, collapse, firstprivate, lastprivate, ordered, ...) is rejected
+            for cname, carg, where in bad_clauses:
+                an.access("<directive>", True, "AOpaque", line=t.line,
+                          what="clause %s(%s) of `omp %s` is not modelled%s" % (
+                              cname, carg or "", where,
+                              " (the partial results are combined in an unspecified order)" if cname == "reduction" else ""))
             # statements of the region outside the work-shared loops run once per thread: they may
             # only touch private variables; anything shared written there is a conflict of all threads
             for st in pre:
@@ -1154,6 +1293,7 @@ def analyse_file(path, rel, macros, variant):
                     continue
                 an.iv = var
                 reg.iv = var
+                reg.loops.append({"iv": var, "lo": S(lo or []), "hi": S(hi or []), "cmp": cmp_})
                 an.locals.discard(var)
                 if var in an.priv:
                     an.priv.remove(var)
@@ -1233,7 +1373,10 @@ def translate(repo):
         af = sorted({json.dumps([a["var"], a["crit"], a.get("form", ["whole"])]) for a in acc
                      if a["var"] in interesting})
         out.append({"name": r.name, "line": r.line, "iv": r.iv, "shared": keep, "private": pv,
-                    "write_forms": [json.loads(x) for x in wf], "access_forms": [json.loads(x) for x in af]})
+                    "write_forms": [json.loads(x) for x in wf], "access_forms": [json.loads(x) for x in af],
+                    "file": r.file, "func": r.func, "if": r.if_clause, "if_atoms": cond_atoms(r.if_clause),
+                    "if_thresholds": cond_thresholds(r.if_clause), "clauses": [list(c) for c in r.clauses],
+                    "loops": r.loops})
     return {"regions": out, "hlle": hlle}
 
 
@@ -1279,7 +1422,9 @@ def to_coq(tr):
     for n, r in enumerate(tr["regions"]):
         ident = "region_%d" % n
         names.append(ident)
-        L.append("(* %s (line %d), induction variable %s *)" % (r["name"], r["line"], r["iv"]))
+        L.append("(* %s (line %d), induction variable %s%s *)" % (
+            r["name"], r["line"], r["iv"],
+            (", parallel only if (%s)" % r["if"].replace("*)", "* )").replace("(*", "( *")) if r.get("if") else ""))
         L.append("Definition %s : region := mkRegion \"%s\"" % (ident, r["name"]))
         accs = []
         for a in r["shared"]:
